@@ -681,10 +681,27 @@ package router
 //@   ensures [C15:configured-limits-installed] (cfg.GlobalLimit > 0) == (l.global != nil) && (cfg.Client.Limit > 0) == (l.cl != nil)
 //@   callsite NewClientLimiter?: [C15:configured-client-limit] arg0.Burst == cfg.Client.Burst && arg0.V4Mask == cfg.Client.V4Mask && arg0.V6Mask == cfg.Client.V6Mask
 //@   callsite NewLimiter?: [C15:configured-global-limit] arg1 == cfg.GlobalLimit
+// initCache: the cache control it returns is complete (logger, usable back ends, well-formed client-group marker);
+// when a later step fails, every back end created by an earlier step is closed before the error is returned.
+//@ func loadIpMarkerFromFile(fp string) (m *ipMarker, err error)
+//@   props C07
+//@   modifies nothing
+//@   ensures err == nil ==> m != nil && markerOK(m)
+//@   ensures err != nil ==> m == nil
 //@ func (r *router) initCache(cfg *CacheConfig) (c *cacheCtl, err error)
-//@   trusted
+//@   props C18 C07
+//@   requires r != nil && cfg != nil
+//@   ghost gMem *cache.MemoryCache = nil
+//@   ghost gRedis *cache.RedisCache = nil
+//@   ghost nClose int = 0
+//@   aftercall NewMemoryCache?: gMem = ret0
+//@   aftercall NewRedisCache?: gRedis = ret0
+//@   oncall Close?: nClose = nClose + 1
 //@   modifies nothing
 //@   ensures err == nil ==> c != nil && c.logger != nil && (c.memory == nil || memOK(c.memory)) && (c.ipMarker == nil || markerOK(c.ipMarker))
+//@   ensures err != nil ==> c == nil
+//@   ensures [C18:failed-init-releases-what-it-started] err != nil && (gMem != nil || gRedis != nil) ==> nClose == 1
+//@   ensures [C18:nothing-closed-on-success] err == nil ==> nClose == 0
 // startServer: one listener per configured protocol; "tls" and "https" start the TLS variants; an unknown
 // protocol is an error; a closer is returned exactly when a listener was started.
 //@ func (r *router) startServer(cfg *ServerConfig) (closer func(), err error)
